@@ -7,7 +7,7 @@ import VerifModel.Model.Aggregator
           new_array = np.nan * np.zeros(array.shape, np.float32)
           for t in range(array.shape[1]):
               start = leadtimes[t] - length
-              I = range(np.where(leadtimes > start)[0][0], t+1)
+              I = np.where((leadtimes > start) & (leadtimes <= leadtimes[t]))[0]
               new_array[:, t, :] = aggregator(array[:, I, :], axis=1)
           return new_array
 
@@ -16,34 +16,36 @@ import VerifModel.Model.Aggregator
   to every array it loads (observations, forecasts, every other field, the ensemble) when
   `dim_agg_length` (-T) is set.
 
-  Mirrored literally: the window of position t is the index range
-  [first index whose coordinate is > x_t − h·scale, t]; nothing in the code looks at the
-  coordinates between those two positions, so on coordinates that are not ascending this is
-  not the set {j | x_t − h < x_j ≤ x_t}.  The result is stored as float32 (rounding: not
-  modelled, compared with a float32 tolerance).
-  For h ≤ 0 (rejected by the driver: "-T <value> must be greater than 0") the code raises
-  IndexError or aggregates an empty slice; the model mirrors that too (`none` / `f []`), which was
-  compared once against the code but is outside the property and not part of the check.
+  Mirrored literally: the window of position t is the set of positions j whose coordinate
+  satisfies x_t − h·scale < x_j ≤ x_t, in series order, whatever the order of the coordinates.
+  (Before the repair it was the index range [first index whose coordinate is > x_t − h·scale, t],
+  which is that set only on ascending coordinates; `firstAbove` / `slice` below describe that range
+  and are kept for the statement "on ascending coordinates the window is a contiguous range".)
+  The result is stored as float32 (rounding: not modelled, compared with a float32 tolerance).
+  For h ≤ 0 (rejected by the driver: "-T <value> must be greater than 0") the window is empty and
+  the aggregator sees an empty slice (`f []`); outside the property and not part of the check.
 -/
 namespace VerifModel.Preagg
 open VerifModel
 
-/-- `np.where(coords > start)[0][0]`; `none` = IndexError (no coordinate above `start`) -/
+/-- first index whose coordinate is above `start` (on ascending coordinates the window starts there) -/
 def firstAbove (coords : List XR) (start : XR) : Option Nat :=
   List.findIdx? (fun c => XR.gt c start) coords
 
-/-- `array[I]` for `I = range(first, t+1)` -/
+/-- the index range `first … t` of a series -/
 def slice {α : Type} (vals : List α) (first t : Nat) : List α := List.drop first (List.take (t + 1) vals)
+
+/-- `array[I]` for `I = np.where((coords > start) & (coords <= ct))[0]`: the entries whose coordinate
+lies in (start, ct], in series order -/
+def selectWindow {α : Type} (coords : List XR) (vals : List α) (start ct : XR) : List α :=
+  ((coords.zip vals).filter fun p => XR.gt p.1 start && XR.le p.1 ct).map (·.2)
 
 /-- one cell of the new array: position `t` of one series -/
 def preaggAt (f : Vec → Option XR) (scale h : XR) (coords : List XR) (vals : Vec) (t : Nat) :
     Option XR :=
   match coords[t]? with
   | none => none
-  | some ct =>
-    match firstAbove coords (ct - h * scale) with
-    | none => none
-    | some first => f (slice vals first t)
+  | some ct => f (selectWindow coords vals (ct - h * scale) ct)
 
 /-- a whole series (1-D) -/
 def preagg1 (f : Vec → Option XR) (scale h : XR) (coords : List XR) (vals : Vec) : Option Vec :=
@@ -61,14 +63,10 @@ def preaggArr (f : Vec → Option XR) (scale h : XR) (coords : List XR) (k : Nat
     else
       let outer := Arr.prod (arr.dims.take k)
       let inner := Arr.prod (arr.dims.drop (k + 1))
-      -- every t computes its window start before anything is aggregated
-      match (List.range n).mapM (fun t => (coords[t]?).bind fun ct => firstAbove coords (ct - h * scale)) with
-      | none => none
-      | some _ =>
-        let cells : List (Option XR) :=
-          (List.range outer).flatMap fun o => (List.range n).flatMap fun t => (List.range inner).map fun i =>
-            preaggAt f scale h coords (Arr.fiberAt arr.data n inner o i) t
-        (cells.mapM id).map fun d => ⟨arr.dims, d⟩
+      let cells : List (Option XR) :=
+        (List.range outer).flatMap fun o => (List.range n).flatMap fun t => (List.range inner).map fun i =>
+          preaggAt f scale h coords (Arr.fiberAt arr.data n inner o i) t
+      (cells.mapM id).map fun d => ⟨arr.dims, d⟩
 
 /-- the two entry points -/
 def preaggLead (f : Vec → Option XR) (h : XR) (leadtimes : List XR) (arr : Arr) : Option Arr :=
